@@ -16,7 +16,10 @@ func checkC08(c *Ctx, r *Report) {
 		"the three mdat decoders derive LargeSize from the header length and StartPos from the start position; (S-SHAPE) DecodeBoxLazyMdat performs the same header decode, registry lookup, unknown-box fallback and decoder call as DecodeBox, " +
 		"differing only in the mdat arm, where it seeks only after a successful lazy decode; (G7) ReadData/CopyData reject a range end only when it is strictly greater than the data length (a range ending at the last byte is valid); " +
 		"(O-FLUSH) in File.CopySampleData a direct copy from the file to the writer is control-dependent on a test that the work buffer is absent, so buffered bytes of earlier chunks cannot be overtaken, and the buffer remainder is written after the loop; " +
-		"W-EE (layout engine, C03) covers that a lazy mdat encodes to exactly its header. Does not decide seek arithmetic values or refill correctness for all sizes."
+		"(DEP) File.AddChild's test that the previous mdat is empty depends on the lazily decoded size; (O-INDEP) in loops over chunks the first-chunk and last-chunk adjustments are independent, not exclusive arms (lazy copyMediaData and GetRangesForSampleInterval); (W-MDATHDR) no function computes the payload start as StartPos plus a constant. W-EE (layout engine, C03) covers that a lazy mdat encodes to exactly its header. Does not decide seek arithmetic values or refill correctness for all sizes."
+	ruleMdatEmptyTest(c, r)
+	ruleIndependentEnds(c, r, "O-INDEP", func(f *ssa.Function) bool { n := SSAFuncName(f); return strings.HasPrefix(n, "examples/segmenter.") || strings.HasPrefix(n, "mp4.") }, 2)
+	ruleNoMdatHeaderConstant(c, r, "W-MDATHDR")
 	if f := c.ssaFunc(r, "DEP", "mp4", "DecodeMdatLazily"); f != nil {
 		sts := storesTo(f, "MdatBox.lazyDataSize")
 		if len(sts) == 0 {
